@@ -88,11 +88,15 @@ bool Directory::removeRecursive(const String& path)
 
 bool File::copy(const String& to)
 {
+	if(_file) // what was written through this object must be in the file that is copied
+		flush();
 	return Directory::copy(_path, to);
 }
 
 bool File::move(const String& to)
 {
+	if(_file) // nothing may still be written to the old name afterwards
+		close();
 	return Directory::move(_path, to);
 }
 
